@@ -165,6 +165,14 @@ def exit_checks(E, st, kind, retval, is_drop_root=False):
     ret_vals = reachable_values(E, st, [retval]) if (retval is not None and not unw) else []
     survivors = reachable_values(E, st, caller_mem) + ret_vals
     its = [v for v in survivors if v[0] == 'sliceit']
+    for v in survivors:
+        cv = E.cursor_view(v)
+        if cv is not None:
+            its.append(cv)
+            # the hand-written cursor never runs past the end of its slice (size hints subtract the two)
+            E.oblig('HANDLE', st.zone.entails_le(cv[2], cv[3]) or st.maps[cv[1]].dead, prim,
+                    'cursor %s of %s is not proved <= the length of its slice (%s)' % (cv[2], v[1], cv[3]), 'unproven',
+                    sample='%s <= %s' % (cv[2], cv[3]))
     ret_maps = {v[1] for v in ret_vals if v[0] == 'map'}
     for mid, ms in st.maps.items():
         if ms.dead:
